@@ -915,6 +915,9 @@ pub fn gen_w3(seed: u64) -> W3Script {
     let mut r = Rng::new(seed).sub(5);
     let elem = *r.pick(&[VT::Tr, VT::Tr, VT::Tr, VT::Big, VT::Zt]);
     let n_pre = match r.below(6) {
+        // now and then a vector of several pages: size-dependent paths (bulk drops, moves of
+        // whole pages) only exist above such thresholds
+        _ if r.chance(1, 40) => 100 + r.usize_below(600),
         0 => 0,
         1 => 1,
         2 | 3 => 2 + r.usize_below(5),
